@@ -2598,7 +2598,12 @@ class Circuit(AbstractCircuit):
         copy = self.copy()
         shift = 0
         # Note: python `sorted` is guaranteed to be stable. This matters.
-        insertions = sorted(insertions, key=lambda e: e[0])
+        n = len(copy._moments)
+        # Negative indices count from the end of the circuit as it is before the call, like insert().
+        insertions = sorted(
+            ((max(min(i if i >= 0 else n + i, n), 0), op_tree) for i, op_tree in insertions),
+            key=lambda e: e[0],
+        )
         groups = _group_until_different(insertions, key=lambda e: e[0], val=lambda e: e[1])
         for i, group in groups:
             insert_index = i + shift
